@@ -1,9 +1,126 @@
-import Okane.Drv.IOUtil
-/-! Driver commands for C12 (stub: replaced when the property's streams are built). -/
+import Okane.Drv.Core
+import Okane.Spec.Alias
+/-!
+Driver for C12.  `drv c12 pair`: input = output lines of `hx c12 pair`
+(`<id> to=<tree> ro=<result> go=<register> [ts=<tree> rs=<result> gs=<register>] bin=..`).
+Output: `<id> mo=<v> [ms=<v> same=<yes|no> rel=<yes|no>] canon=<yes|no:name>`
+  mo / ms : the model's `process` on the implementation's parsed tree vs. the implementation's result (original / substituted)
+  same    : the model's results for the two ledgers are equal (the instance of theorem `C12_transparent_decl`)
+  rel     : the two trees are entry-by-entry the same up to respelling of names through the model's context at that point
+            (`EntriesRel`, evaluated) — i.e. the pair really is inside the theorem's hypothesis
+  canon   : `C12_canonical` evaluated on the implementation's result: every account / commodity name it reports is a
+            canonical record of the model's final context, never an alias key
+-/
 namespace Okane.Drv.C12
+open Okane Okane.Drv Sexp
 
-def main (args : List String) : IO Unit := do
-  let _ := args
-  pure ()
+def sameName (s : Store) (x y : String) : Bool :=
+  x == y || (match s.resolve x, s.resolve y with
+    | some a, some b => a == b
+    | _, _ => false)
+
+def sameComm (s : Store) (x y : String) : Bool :=
+  x == y || (!x.isEmpty && !y.isEmpty && sameName s x y)
+
+mutual
+partial def exprRelB (s : Store) : Expr → Expr → Bool
+  | .neg a, .neg b => exprRelB s a b
+  | .bin o l r, .bin o' l' r' => o == o' && exprRelB s l l' && exprRelB s r r'
+  | .val v, .val v' => vexprRelB s v v'
+  | _, _ => false
+partial def vexprRelB (s : Store) : VExpr → VExpr → Bool
+  | .paren a, .paren b => exprRelB s a b
+  | .amt v c, .amt v' c' => v == v' && sameComm s c c'
+  | _, _ => false
+end
+
+def exchRelB (s : Store) : Exchange → Exchange → Bool
+  | .total a, .total b => vexprRelB s a b
+  | .rate a, .rate b => vexprRelB s a b
+  | _, _ => false
+
+def optRelB {α} (r : α → α → Bool) : Option α → Option α → Bool
+  | none, none => true
+  | some a, some b => r a b
+  | _, _ => false
+
+def postingRelB (c : Ctx) (p q : Posting) : Bool :=
+  sameName c.accounts p.account q.account && p.clear == q.clear &&
+  optRelB (fun a b => vexprRelB c.commodities a.amount b.amount && optRelB (exchRelB c.commodities) a.cost b.cost &&
+      optRelB (exchRelB c.commodities) a.lot.price b.lot.price && a.lot.date == b.lot.date && a.lot.note == b.lot.note)
+    p.amount q.amount &&
+  optRelB (vexprRelB c.commodities) p.balance q.balance && p.metadata == q.metadata
+
+def entryRelB (c : Ctx) : Entry → Entry → Bool
+  | .txn t, .txn u => t.date == u.date && t.payee == u.payee && listAll2 (postingRelB c) t.posts u.posts
+  | e, e' => e == e'
+
+/-- `EntriesRel`, evaluated along the model's run of the original ledger. -/
+def entriesRelB : ProcState → List Entry → List Entry → Bool
+  | _, [], [] => true
+  | st, e :: es, e' :: es' =>
+    entryRelB st.ctx e e' &&
+      (match stepEntry st e with
+       | .ok st' => entriesRelB st' es es'
+       | _ => true)
+  | _, _, _ => false
+
+/-- names reported by the implementation: accounts and commodities of transactions and balances. -/
+def reportedNames : ImplResult → List String × List String
+  | .ok ts b =>
+    let accs := ts.flatMap (fun t => t.postings.map (·.account)) ++ b.map (·.1)
+    let comms := ts.flatMap (fun t => t.postings.flatMap fun p =>
+        p.amount.map (·.1) ++ (match p.converted with | some s => [s.commodity] | none => [])) ++
+      b.flatMap (fun kv => kv.2.map (·.1))
+    (accs, comms)
+  | _ => ([], [])
+
+def canonCheck (m : Outcome (Nat × BkErrS) ProcState) (impl : ImplResult) : String :=
+  match m with
+  | .ok st =>
+    let (accs, comms) := reportedNames impl
+    match accs.find? (fun a => AMap.get? st.ctx.accounts.recs a != some none) with
+    | some a => "no:account:" ++ Sexp.encode a
+    | none =>
+      match comms.find? (fun c => AMap.get? st.ctx.commodities.recs c != some none) with
+      | some c => "no:commodity:" ++ Sexp.encode c
+      | none => "yes"
+  | _ => "yes"
+
+def verdict (es : List Entry) (impl : ImplResult) : String :=
+  match impl with
+  | .other s => "skip:" ++ s.toStr
+  | _ =>
+    let (ok, m) := compareProcess es impl
+    if ok then "agree" else "DISAGREE:" ++ (m.replace " " "_")
+
+def resultEq : Outcome (Nat × BkErrS) ProcState → Outcome (Nat × BkErrS) ProcState → Bool
+  | .ok a, .ok b => listAll2 txnEq a.txns b.txns && balanceEq a.bal b.bal
+  | .err (i, e), .err (j, f) => i == j && (bkErrDesc e).1.map Sexp.toStr == (bkErrDesc f).1.map Sexp.toStr
+  | _, _ => false
+
+def step (line : String) : String :=
+  let (id, fs) := splitFields line
+  match field fs "to", (field fs "ro").bind Sexp.parse with
+  | some to, some ro =>
+    match decEntries to, decResult ro with
+    | some eo, some io =>
+      let mo := process eo
+      let base := s!"{id} mo={verdict eo io}"
+      match field fs "ts", (field fs "rs").bind Sexp.parse with
+      | some ts, some rs =>
+        match decEntries ts, decResult rs with
+        | some es, some is =>
+          let ms := process es
+          s!"{base} ms={verdict es is} same={if resultEq mo ms then "yes" else "no"} rel={if entriesRelB {} eo es then "yes" else "no"} canon={canonCheck ms is}"
+        | _, _ => s!"{id} undecodable substituted"
+      | _, _ => s!"{base} canon={canonCheck mo io}"
+    | _, _ => s!"{id} undecodable"
+  | _, _ => s!"{id} bad-case"
+
+def main (args : List String) : IO Unit :=
+  match args with
+  | "pair" :: _ => forEachLine step
+  | _ => IO.eprintln "usage: drv c12 pair"
 
 end Okane.Drv.C12
